@@ -131,6 +131,7 @@ def run_case(case):
             ids = [a for a in c["argv"] if not a.startswith("-")]
             asked.extend(ids)
             res.mon("cancel_cmds_checked")
+        res.obs("cancel", {"args": args, "situations": case["sit"], "tracked": tracked, "ids_asked": asked, "fault": case["fault"], "output": (r.out + r.err)[-600:]})
         if case["fault"] and len(cmds) >= case["fault"]["k"]:
             res.mon("faults_injected")
         if sorted(asked) != sorted(want_ids):
